@@ -882,7 +882,8 @@ def spaced(text, rnd):
             out.append(', ' if mode != 3 else ' ,')
         elif ch in '+*' and prev not in 'Ee(' and i and mode != 3:
             out.append(f' {ch} ')
-        elif ch == '(' and mode == 2 and prev.isalpha():
+        elif ch == '(' and mode == 2 and prev.isalpha() and text[i + 1:i + 2] != ')':
+            # (ROW() / COLUMN() keep their spelling: checks recognise them by it)
             out.append('(\n')
         else:
             out.append(ch)
